@@ -126,3 +126,54 @@ PROPS["C03"] = {
          "trace_module": "ReplicaTrace", "trace_consts": dict(RANGER, Prop='"C03"')},
     ],
 }
+
+# ------------------------------------------------------------------------------------------ C01 / C08
+SESSION_CONSTS = dict(RANGER, MaxInit=2, MaxRounds=12, Shards=1, Shard=0)
+SESSION_INV = ["Terminates", "Converges", "Mirror", "SecondIsQuiet", "Normal", "NoDebugAssert", "CarriedWereHeld", "NoForeign"]
+SESSION_SMALL = {"name": "session-small", "module": "MCSession", "workers": 6,
+                 "consts": dict(SESSION_CONSTS, Universe="<- USmall", Configs="<- Cfg21"), "invariants": SESSION_INV}
+SESSION_MODELS = [
+    {"name": "session-quick", "module": "MCSession", "workers": 10, "timeout": 1200,
+     "consts": dict(SESSION_CONSTS, Universe="<- U1", Configs="<- Cfg21"), "invariants": SESSION_INV, "tiers": ("quick",)},
+    {"name": "session-configs", "module": "MCSession", "workers": 14, "timeout": 3000,
+     "consts": dict(SESSION_CONSTS, Universe="<- U1", Configs="<- CfgAll"), "invariants": SESSION_INV, "tiers": ("thorough",)},
+    {"name": "session-two-authors", "module": "MCSession", "workers": 14, "timeout": 3000,
+     "consts": dict(SESSION_CONSTS, Universe="<- U2", Configs="<- Cfg21"), "invariants": SESSION_INV, "tiers": ("thorough",)},
+    {"name": "session-wide", "module": "MCSession", "workers": 14, "timeout": 3000,
+     "consts": dict(SESSION_CONSTS, Universe="<- U4", Configs="<- CfgW", MaxInit=8, MaxRounds=40), "invariants": SESSION_INV,
+     "tiers": ("thorough",)},
+]
+PROPS["C01"] = {
+    "level": "model_checking",
+    "rule": "model: every pair of normalized stores of <= 2 entries per side over a 24-entry universe (empty key, 0xFF-edged, "
+            "prefix pairs, markers, value ties), complete first and second session; thorough adds 5 configs, two authors, and "
+            "stores up to 8 entries x 6 configs; implementation: seeded store pairs (<= 14 entries/side, 3 authors, 10 "
+            "split/max-set configs, memory and file backends), the full transcript validated message by message",
+    "assumptions": ["fingerprint collision-freedom (BLAKE3/XOR) is assumed; observed fingerprints must be an injective "
+                    "function of the range contents across each run",
+                    "initiator is side A; both orders of every random pair are equally likely by symmetry of generation"],
+    "models": [SESSION_SMALL] + SESSION_MODELS,
+    "sensitivity": [
+        {"base": "session-small", "flip": {"ParentsSeeMarkers": "FALSE"}},
+        {"base": "session-small", "flip": {"PrefixBoundCarry": "FALSE"}},
+    ],
+    "drives": [
+        {"name": "session", "cmd": "session", "args": {"n": {"quick": 400, "thorough": 12000}},
+         "trace_module": "SessionTrace", "trace_consts": dict(RANGER, Prop='"C01"', RoundBound=40), "tv_timeout": 3000},
+    ],
+}
+PROPS["C08"] = {
+    "level": "model_checking",
+    "rule": "Ranger.tla is the reference ordered map; model: the C01 session model exercises it; implementation: every "
+            "process_message step of real sessions (memory and file) must equal Ranger.Process on the logged pre-state, plus "
+            "a primitive sweep of hand-built one/two-part messages (impossible / empty fingerprints, item requests) over "
+            "arbitrary ranges x<y, x>y, x=y incl. foreign-namespace endpoints and 6 configs",
+    "assumptions": ["fingerprint collision-freedom assumed; injectivity of observed fingerprints checked per run"],
+    "models": [SESSION_MODELS[0], dict(SESSION_MODELS[1])],
+    "drives": [
+        {"name": "session", "cmd": "session", "args": {"n": {"quick": 300, "thorough": 8000}},
+         "trace_module": "SessionTrace", "trace_consts": dict(RANGER, Prop='"C08"', RoundBound=40), "tv_timeout": 3000},
+        {"name": "sweep", "cmd": "replica", "args": {"profile": "c08", "n": {"quick": 300, "thorough": 5000}},
+         "trace_module": "ReplicaTrace", "trace_consts": dict(RANGER, Prop='"C08"'), "tv_timeout": 3000},
+    ],
+}
